@@ -145,6 +145,12 @@ structure Part where
   tomb : List Nat := []
   threshold : Nat := defaultThreshold
   ambiguous : Bool := false
+  /-- durable: closed earlier segments `(id, bytes)`, oldest first — only non-empty after a
+      segment roll-over; the functions of this file describe the partition while it has the
+      single segment 0000 (`older = []`, `segId = 0`), `Model/SeriesFileG.lean` the general case -/
+  older : List (Nat × Bytes) := []
+  /-- id of the active segment `file` -/
+  segId : Nat := 0
 deriving Repr
 
 namespace Part
